@@ -222,7 +222,8 @@ package estargz
 //@   assert[C03] before "ent.ChunkOffset = written" : ent.Offset <= w.cw.n
 //@   assert[C03] before "ent.ChunkOffset = written" : ent.InnerOffset >= 0
 //@   assert[C03] before "ent.ChunkOffset = written" : ent.Offset == prevOffset
-//@   assert[C03] before "ent.ChunkOffset = written" : needsOpenGz(w, ent) ==> w.gz == nil && ent.InnerOffset == 0 && ent.Offset == w.cw.n
+// (also C14: the landmark opens its own stream, so everything laid out before it ends strictly before its offset)
+//@   assert[C03,C14] before "ent.ChunkOffset = written" : needsOpenGz(w, ent) ==> w.gz == nil && ent.InnerOffset == 0 && ent.Offset == w.cw.n
 // the counters only grow: Write adds the (non-negative) number of bytes the underlying writer accepted. int64
 // overflow of a byte counter (2^63 bytes through one writer) is not modelled (arith math).
 //@ func (cw *countWriter) Write
